@@ -293,6 +293,9 @@ func TestHarness(t *testing.T) {
 		// C08: one seeded workload under every configuration
 		for i := 0; i < job.N && !hung; i++ {
 			seed := job.Seed*104729 + int64(i)
+			for v := 0; v < 3; v++ {
+				emit(guard("framing", "json-raw", seed, func() SysRecord { return FamFraming(seed, v) }))
+			}
 			for _, st := range []struct {
 				stream bool
 				chunk  int
